@@ -200,6 +200,7 @@ def main():
     dropped = []
     per_backend = dict(verus_functions=0, verus_clauses=0, verus_smt_ms=0, verus_wall_s=0.0, kani_harnesses=0, kani_checks=0, kani_wall_s=0.0)
     canary_ok = []
+    lemmas_proved = []
     checker_cmds = []
     undecided = []
     other_failures = []
@@ -302,6 +303,16 @@ def main():
         for f in cl['failures']:
             if not f['canary'] and not tags_include(f['tags'], pid):
                 other_failures.append('%s::%s %s [%s]' % (uname, f['function'], f['kind'], f['tags']))
+        # lemmas over the contracts (proof fns in /verif/lemmas): one obligation each, discharged unless Verus
+        # reports a failure in that region (which is then undecided: a lemma is ours, not /repo's)
+        for lp in prov.get('lemmas', []):
+            ltext = '\n'.join(U['text'].split('\n')[lp['gen_lines'][0] - 1:lp['gen_lines'][1]])
+            names = re.findall(r'proof fn (\w+)', ltext)
+            bad = any(f['function'] is None and f.get('region') == lp['file'] for f in cl['failures'])
+            obligations += len(names)
+            if not bad:
+                discharged += len(names)
+            lemmas_proved.extend('%s::%s' % (uname, n) for n in names)
         # failures outside any contracted function (lemmas, prelude): machinery problem
         for f in cl['failures']:
             if f['function'] is None:
@@ -350,7 +361,11 @@ def main():
                 checker_cmds.append(nr['cmd'])
                 bounded_runs.append('BOUNDED (not counted as proved) %s: %s; %d cases; functions %s; reason: %s' % (nr['id'], nr['bound'], nr['evaluations'], ', '.join(nr['functions']), nr['why']))
                 functions_under_contract += [dict(unit='native-bounded:' + nr['id'], function=fn, bounded=True) for fn in nr['functions']]
-                if not nr['passed']:
+                if not nr['passed'] and nr.get('attributed') and pid not in nr['attributed']:
+                    # the failing oracle states other properties: not an alarm for this one
+                    bounded_runs[-1] += ' -- INCOMPLETE: stopped at a failure attributed to %s' % ', '.join(nr['attributed'])
+                    print('note: bounded stand-in %s failed on an oracle of %s (not of %s): reported by the checks of those properties' % (nr['id'], ', '.join(nr['attributed']), pid))
+                elif not nr['passed']:
                     violations.append(dict(engine='native-bounded', test=nr['id'], functions=nr['functions'], cmd=nr['cmd'], verifier_output=nr['output_tail'],
                                            playback=dict(reproduced=True, native_cmd=nr['cmd'])))
         except native_run.NativeUndecided as e:
@@ -386,6 +401,7 @@ def main():
             extraction_dropped=dropped[:400],
             bounded_parts=list(P.get('bounded', [])) + bounded_runs + [x for x in trusted_dedup if x.startswith('BOUNDED')],
             canary_functions_failing_as_required=canary_ok,
+            lemmas_over_contracts=lemmas_proved,
             known_findings=[k['what'] for k in known_hits],
             known_failing_obligations_excluded_from_counts=known_failing,
             undecided=undecided,
